@@ -237,7 +237,8 @@ def mutate(rng, s):
 
 
 def anno_string(rng):
-    keys = ['q', 'w', 'fragname', 'x', 'mass', 'k', 'charge', 'weight', 'kwargs', '']
+    # (keys are case sensitive: 'Q', 'W', 'Mass', 'resName' are free keys, kept verbatim)
+    keys = ['q', 'w', 'fragname', 'x', 'mass', 'k', 'charge', 'weight', 'kwargs', '', 'Q', 'W', 'Mass', 'resName']
     nums = ['1', '+1', '-0.25', '1e-1', '.5', '5.', '0', '1e3', '-2', '0.5', '2']
     bad = ['a', 'abc', '1=2', '', '--1', '1e', 'x1', '.']
     entries = []
